@@ -86,6 +86,10 @@ def gen_workload(policy: str):
     def gen(rng: random.Random, tier: str) -> dict:
         kind = rng.choice(["size_tiered", "leveled", "size_tiered", "leveled", "fifo"])
         cfg = gen_lsm_cfg(rng, kind, wal=True, wal_policy=policy)
+        if rng.random() < 0.15:
+            # round 8: one level only, so every compaction rewrites L0 in place while flushes keep installing newer
+            # tables into the same level (C15-r8-2: merged table appended behind them, stale value durable after a crash)
+            cfg["max_levels"] = 1
         keys = gen_keys(rng, 2, 6)
         scale = cfg["sstable_write_latency"]
         n_clients = rng.randint(1, 4)
